@@ -81,6 +81,7 @@ func runC06(c *Ctx) {
 		} else {
 			w = f.AfterEdgesMayReach(fail, nil, nil, setRunning)
 			c.Check(w == nil, "init/failed-PreStart⇏running", "a failed PreStart never makes the actor running", c.P.Pos(initFn.Decl.Pos()), f.describe(w))
+			c.onlyOnSuccess(f, run, setRunning, "init/running-only-after-successful-PreStart", "the actor becomes running only over the edge on which PreStart succeeded", c.P.Pos(initFn.Decl.Pos()))
 		}
 		// restartSubtree: init (PreStart of the new incarnation) only after the old incarnation's turn is quiescent
 		rs := c.Func("actor", "restartSubtree")
@@ -111,6 +112,7 @@ func runC06(c *Ctx) {
 		if n2 > 0 {
 			w = nf.AfterEdgesMayReach(ifail, nil, nil, deliver)
 			c.Check(w == nil, "newPID/failed-init⇏deliver", "a PID whose init failed is not started", c.P.Pos(np.Decl.Pos()), nf.describe(w))
+			c.onlyOnSuccess(nf, nf.CallTo(initFn.Obj), deliver, "newPID/deliver-only-after-successful-init", "a new PID is started only over the edge on which init succeeded", c.P.Pos(np.Decl.Pos()))
 		}
 	})
 
